@@ -4,7 +4,7 @@ CONSTANTS
   InitMaps <- Inits
   Types <- AllTypes
   SetVals <- Vals
-  MaxOps = 4
+  MaxOps = 3
 INVARIANT KeysDistinct
 INVARIANT SetThenGet
 PROPERTY OrderPreserved
